@@ -31,8 +31,8 @@ def q(x):
 def gen_cases(ctx):
   rng = ctx.rng
   quick = ctx.tier == "quick"
-  ncases = 150 if quick else 1800
-  nmax = 5 if quick else 8
+  ncases = 150 if quick else 900
+  nmax = 5 if quick else 7
   ps = [1, 2, 3, 4, 8] if quick else [1, 2, 3, 4, 5, 6, 7, 8]
   cases = []
   for i in range(ncases):
@@ -185,16 +185,24 @@ def run(ctx):
       terms.append(t)
       idx.append((i, name))
   ctx.log("%d Coq evaluations" % len(terms))
-  vals = ctx.coq_eval("c01", HEADER, terms, per_shard=40, timeout=1800)
+  vals = ctx.coq_eval("c01", HEADER, terms, per_shard=40, timeout=1800, salvage=True, term_timeout=600)
   fails = {}
   counts = {}
+  inconclusive = 0
   for (i, name), v in zip(idx, vals):
+    if v == "TIMEOUT":
+      inconclusive += 1
+      ctx.count("coq:inconclusive(time limit)")
+      continue
     code = int(v.replace("%Z", "").strip("()"))
     counts[name] = counts.get(name, 0) + 1
     if code != 0:
       fails.setdefault(i, []).append((name, code))
   for k, v in counts.items():
     ctx.count("coq:" + k, v)
+  if inconclusive * 20 > max(1, len(vals)):
+    ctx.violation("check-degenerate", dict(theorem_or_check="more than 5%% of the Coq evaluations hit the "
+                                           "time limit (%d of %d)" % (inconclusive, len(vals))), no_input=True)
   seen = set()
   for i, r in enumerate(results):
     c = r["case"]
